@@ -416,9 +416,10 @@ class HistogramBase(abc.ABC):
         The histogram is promoted (never narrowed) to a type that can hold the new values.
         """
         if getattr(self, "_dtype", None) is None:
-            return array  # Called from the constructor, dtype is determined there
+            # Called from the constructor, dtype is determined there
+            return np.array(array)  # (Never the caller's own array)
         self._coerce_dtype(array.dtype)
-        return array.astype(self._dtype, copy=False)
+        return np.array(array, dtype=self._dtype)  # (Always a copy, see the setters)
 
     @property
     def bin_count(self) -> int:
